@@ -366,6 +366,10 @@ fn rec_variants() -> Vec<Rec> {
     for b in [&b""[..], b"CG"] {
         v.push(Rec { header: " unplaced scaffold".to_string(), bases: b.to_vec() });
     }
+    // ids in the spellings sequencers and pipelines use (mate suffixes, index tags, version dots, pipes): the id is the
+    // first word of the header, whatever it looks like
+    v.push(Rec { header: "HWUSI-EAS100R:6:73:941:1973#0/1 mate".to_string(), bases: b"CG".to_vec() });
+    v.push(Rec { header: "gi|12345|ref|NC_0001.2|/2".to_string(), bases: b"A".to_vec() });
     v
 }
 
@@ -1018,8 +1022,12 @@ pub fn c07_configs(ctx: &mut Ctx) {
         let per = |parts: usize| (total / parts).max(1) as f64 * 1e-8;
         let cfg_many: [(usize, f64); 4] = [(1, 6.0), (4, per(5)), (16, per(11)), (3, per(3))];
         let cfg_few: [(usize, f64); 4] = [(1, 6.0), (4, 1e-7), (16, 2e-8), (8, 1e-9)];
-        for &(threads, mem) in if many { &cfg_many } else { &cfg_few } {
+        for (ci, &(threads, mem)) in (if many { &cfg_many } else { &cfg_few }).iter().enumerate() {
             for (acgt, delete) in [(false, true), (true, false)] {
+                // the sets of more than 60 000 records: one worker with one chunk, and four workers with five chunks
+                if recs.len() > 60_000 && (ci >= 2 || acgt) {
+                    continue;
+                }
                 if !sh.mine() {
                     continue;
                 }
@@ -1027,6 +1035,17 @@ pub fn c07_configs(ctx: &mut Ctx) {
                 ctx.rep.count("cases.config_repetitive", 1);
             }
         }
+    }
+    // the chunk x partition grid of temporary files at its largest: about 420 chunks x 235 partitions = 10^5 files (one
+    // case, one worker, in the last shard; the other cases keep the grid in the hundreds)
+    if !ctx.monitor() && ctx.shard.idx + 1 == ctx.shard.n {
+        let recs: Vec<Vec<u8>> = (0..420usize).map(|i| {
+            let mut r = long_bases(60, 1000 + i);
+            r.iter_mut().for_each(|b| if *b == b'N' { *b = b'G' });
+            r
+        }).collect();
+        c07_run(ctx, &recs, 11, 1, 4e-7, false, true, "grid-100k");
+        ctx.rep.count("cases.grid_of_100k_temp_files", 1);
     }
     // every number of distinct k-mers in a contiguous range (one record of d + k - 1 random bases, k = 21): a table
     // that is rendered or merged in blocks goes wrong at a count that is a multiple of the block, whatever the block is
@@ -1588,6 +1607,30 @@ pub fn c08(ctx: &mut Ctx) {
                         c08_pipeline(ctx, recs, None, k, bs, bc, norm, threads, mem);
                         n += 1;
                     }
+                }
+            }
+        }
+    }
+    // large k: different k-mers that agree in all but their first (or last) few bases - a single-base stretch a little
+    // shorter than k inside ordinary sequence - and occur different numbers of times (extra records holding one window)
+    for k in [22usize, 25, 31] {
+        let mut read = long_bases(60, 7 + k);
+        read.iter_mut().for_each(|b| if *b == b'N' { *b = b'C' });
+        let mut main = read[..55].to_vec();
+        main.extend(std::iter::repeat(b'A').take(k - 5));
+        main.extend_from_slice(&read[..60]);
+        let mut recs = vec![main.clone()];
+        for (j, s) in [50usize, 52, 54, 55 + k - 9].iter().enumerate() {
+            for _ in 0..(2 * j + 3) {
+                recs.push(main[*s..*s + k].to_vec());
+            }
+        }
+        recs.push(long_bases(70, 3));
+        for &(bs, bc) in &[(5usize, 5usize), (2, 6)] {
+            for &(threads, mem) in &[(1usize, 6.0f64), (4, 6.0)] {
+                if sh.mine() {
+                    c08_pipeline(ctx, &recs, None, k, bs, bc, false, threads, mem);
+                    n += 1;
                 }
             }
         }
